@@ -13,8 +13,12 @@ package main
 //             sched@k (k-th NewRPSSchedule call, 1-based) | panic@k (k-th Shoot, 1-based)
 //   cancel  : none | pre | warm | bind | shot<k> | drain | after   (hook inside pool K's mock, default p0)
 //   slow    : prov | agg | shot  (that component ignores its context for slowDelay after the cancel)
-// output : res=<cls> lat=<fast|mid|slow|-> wait=<ok|hang> leak=<n> eng=<trace> sup=<n>
-//          pK.main=<..> pK.aw=<trace> pK.guns=<created> pK.closes=<sorted close counts of closable guns>
+// output : res=<cls> canc=<0|1> lat=<fast|mid|slow|-> wait=<ok|hang> leak=<n> eng=<pool results Engine.Run consumed>
+//          engc=<0|1> sup=<pool results that were suppressed>
+//          pK.main=<..> pK.aw=<trace> pK.guns=<created> pK.closes=<sorted Close counts of the created guns>
+//          pK.errs=<component errors the mocks of pool K actually returned, sorted>
+//   canc=1: the planned cancel fired before Engine.Run returned. lat: time from that cancel to the return of
+//   Engine.Run (fast < 500 ms, slow > 1500 ms; a "slow:" component ignores its context for 2 s).
 
 import (
 	"context"
@@ -43,9 +47,11 @@ import (
 )
 
 const (
-	slowDelay   = 1200 * time.Millisecond
-	waitTimeout = 2 * time.Second
-	runTimeout  = 6 * time.Second
+	slowDelay   = 2000 * time.Millisecond
+	waitTimeout = 5 * time.Second
+	runTimeout  = 8 * time.Second
+	latFast     = 500 * time.Millisecond
+	latSlow     = 1500 * time.Millisecond
 )
 
 // ---------------------------------------------------------------- plan
@@ -278,9 +284,19 @@ type poolRt struct {
 
 	mu   sync.Mutex
 	guns []*gunBase
+	errs map[string]bool // component errors the mocks of this pool have actually returned (or panicked with)
 }
 
-func (p *poolRt) verr(comp string) error { return fmt.Errorf("verr.%s.p%d", comp, p.idx) }
+// verr makes the error a mock component returns and records that it did
+func (p *poolRt) verr(comp string) error {
+	p.mu.Lock()
+	if p.errs == nil {
+		p.errs = map[string]bool{}
+	}
+	p.errs[comp] = true
+	p.mu.Unlock()
+	return fmt.Errorf("verr.%s.p%d", comp, p.idx)
+}
 
 func (p *poolRt) retOf(ctx context.Context, ret, comp string) error {
 	switch ret {
@@ -405,7 +421,7 @@ func (g *gunBase) Shoot(core.Ammo) {
 		time.Sleep(slowDelay)
 	}
 	if k == g.p.spec.panicShot {
-		panic(fmt.Sprintf("verr.panic.p%d", g.p.idx))
+		panic(g.p.verr("panic").Error())
 	}
 	g.aggr.Report(struct{}{})
 }
@@ -643,6 +659,10 @@ func runCase(input string) string {
 		extra++
 	}
 	after := settleGoroutines(baseline+extra, 1500*time.Millisecond)
+	if after > baseline+extra {
+		// a loaded machine: give the exiting goroutines more time before calling it a leak
+		after = settleGoroutines(baseline+extra, 4*time.Second)
+	}
 	leak := after - baseline - extra
 	if leak < 0 {
 		leak = 0
@@ -656,12 +676,17 @@ func runCase(input string) string {
 		b.WriteString("res=" + resCls(res))
 	}
 	lat := "-"
-	if cancelled != 0 && !hungRun && pl.cancel != "after" {
+	if cancelled != 0 {
+		b.WriteString(" canc=1")
+	} else {
+		b.WriteString(" canc=0")
+	}
+	if cancelled != 0 && !hungRun {
 		d := time.Duration(retAt.Load() - cancelled)
 		switch {
-		case d < 300*time.Millisecond:
+		case d < latFast:
 			lat = "fast"
-		case d > 1000*time.Millisecond:
+		case d > latSlow:
 			lat = "slow"
 		default:
 			lat = "mid"
@@ -677,8 +702,7 @@ func runCase(input string) string {
 
 	aw := make([][]string, len(rts))
 	mains := make([][]string, len(rts))
-	var eng []string
-	sup := 0
+	var eng, sup []string
 	engCanceled := false
 	for _, en := range logs.All() {
 		ctxf := en.Context
@@ -693,7 +717,7 @@ func runCase(input string) string {
 		case "Engine run canceled":
 			engCanceled = true
 		case "Pool run result suppressed":
-			sup++
+			sup = append(sup, fmt.Sprintf("%s.%s", fieldStr(ctxf, "id"), errCls(fieldErr(ctxf))))
 		}
 		if pi < 0 || pi >= len(rts) {
 			continue
@@ -731,7 +755,8 @@ func runCase(input string) string {
 	} else {
 		b.WriteString(" engc=0")
 	}
-	fmt.Fprintf(&b, " sup=%d", sup)
+	sort.Strings(sup)
+	b.WriteString(" sup=" + joinOrDash(sup))
 	for i, p := range rts {
 		fmt.Fprintf(&b, " p%d.main=%s p%d.aw=%s", i, joinOrDash(mains[i]), i, joinOrDash(aw[i]))
 		p.mu.Lock()
@@ -745,7 +770,14 @@ func runCase(input string) string {
 		for _, x := range cl {
 			cs = append(cs, strconv.Itoa(x))
 		}
-		fmt.Fprintf(&b, " p%d.guns=%d p%d.closes=%s", i, len(cl), i, joinOrDash(cs))
+		var es []string
+		p.mu.Lock()
+		for e := range p.errs {
+			es = append(es, e)
+		}
+		p.mu.Unlock()
+		sort.Strings(es)
+		fmt.Fprintf(&b, " p%d.guns=%d p%d.closes=%s p%d.errs=%s", i, len(cl), i, joinOrDash(cs), i, joinOrDash(es))
 	}
 	return b.String()
 }
